@@ -14,7 +14,7 @@ criterion removes none, some or all of the poles; the labels are judged against 
 import numpy as np
 
 from checks import _a_labels as H
-from mc import payload
+from mc import looks, payload
 from mc.core import Tally
 
 ID = "C10"
@@ -481,8 +481,36 @@ def one_case(t, seed, sp, idx, route, prm, state=None, count=True):
         return None, False
     if state is not None:
         state[route] = alg
+    looked = []
+    if (idx * 31 + ordmin * 7 + ti) % LOOK_EVERY == 0:
+        # run, LOOK, then read (mc/looks.py): the result is stored on the algorithm as the setups do, its charts are drawn with a
+        # frequency window that leaves about half of the poles outside, and only then are the labels compared with the tables
+        alg.result = res
+        fin = designed[0][np.isfinite(designed[0])]
+        exp = reference(designed[0], designed[1], designed[2], ordmin, ordmax, tol)[0]
+        stab = designed[0][(exp == 1) & np.isfinite(designed[0])]
+        if stab.size:                      # ground truth: the highest pole the reference labels stable is left outside the window
+            band = (0.0, float(stab.max()) * (1 - 1e-6))
+            if count:
+                t.outcomes[f"{route}:looked-with-a-stable-pole-outside-the-window"] += 1
+        else:
+            band = (0.0, float(np.median(fin))) if fin.size else (0.0, 1.0)
+        for name, err in looks.look_at_alg(alg, idx + ordmin + ti, band):
+            looked.append(name)
+            if count:
+                t.outcomes[f"{route}:looked-at-algorithm-before-reading:{name}" + (":raised" if err else "")] += 1
     got = (np.asarray(res.Fn_poles), np.asarray(res.Xi_poles), np.asarray(res.Phi_poles))
     pat = [np.isnan(got[0]), np.isnan(got[1]), np.isnan(got[2]).all(axis=2), np.isnan(got[2]).any(axis=2)]
+    if looked:
+        # the statement's last sentence on the STORED tables as they are now: a pole that is NaN in any stored table is not stable
+        lab = np.asarray(res.Lab)
+        bad = (lab == 1) & (pat[0] | pat[1] | pat[2]) if lab.shape == pat[0].shape else None
+        if bad is not None and bad.any():
+            r_, c_ = (int(x[0]) for x in np.nonzero(bad))
+            t.violation(f"{route}:labelled-stable:nan-cell:after-looking-at-the-charts",
+                        f"{route}: after run() and {', '.join(looked)} (frequency window {band}) {int(bad.sum())} poles that are NaN in the stored "
+                        f"tables carry the label 'stable', e.g. row {r_}, order column {c_}: Fn={got[0][r_, c_]!r} Xi={got[1][r_, c_]!r}", case)
+            return None, False
     if not all(np.array_equal(pat[0], p) for p in pat[1:]):
         if count:
             t.outcomes[f"{route}:returned-tables-have-different-NaN-patterns(not judged, C09)"] += 1
@@ -495,6 +523,7 @@ def one_case(t, seed, sp, idx, route, prm, state=None, count=True):
     return np.asarray(res.Lab).tobytes(), nt
 
 
+LOOK_EVERY = 97
 SPACE_CODES = {}
 
 
@@ -609,6 +638,9 @@ def explore(ctx):
         for route in routes:
             for lo in range(0, n, step):
                 items.append((sp, code, route, lo, min(n, lo + step), ctx.tier, ctx.seed))
+    bounds["read_only_operations_interleaved"] = (f"class routes, one case in {LOOK_EVERY} (fixed by table index, ordmin and tolerance index): the result is stored "
+                                                  "on the algorithm and plot_stab / plot_cluster / plot_svalH are called with a frequency window leaving about half "
+                                                  "of the poles outside, before the labels are compared with the stored tables")
     ctx.bounds = bounds
     warm(ctx.seed)
     # heaviest first for load balance; results are merged order-independently (counts only)
@@ -628,6 +660,11 @@ def explore(ctx):
         "cov_max-removes-a-pole-that-the-soft-criteria-alone-would-label-stable",
         "cov_max-changes-the-label-of-a-surviving-pole(its-previous-order-lost-poles)")]
     req += [f"{UNC}:cov_max-level-{nm}" for nm in COV_MAX_NAMES]
+    # run, look, then read: the charts were drawn between run() and the comparison of labels and tables on every class route
+    req += ["SSIcov.run:looked-at-algorithm-before-reading:plot_stab", "SSIcov.run:looked-at-algorithm-before-reading:plot_cluster",
+            "pLSCF.run:looked-at-algorithm-before-reading:plot_stab", "pLSCF.run:looked-at-algorithm-before-reading:plot_cluster",
+            f"{UNC}:looked-at-algorithm-before-reading:plot_stab", "SSIcov.run:looked-with-a-stable-pole-outside-the-window",
+            "pLSCF.run:looked-with-a-stable-pole-outside-the-window", f"{UNC}:looked-with-a-stable-pole-outside-the-window"]
     ctx.require(*req)
 
 
